@@ -263,3 +263,82 @@ def _c06_lemmas():
 LEMMAS = [Lemma("C06.level_limits", P, _c06_lemmas,
                 uses=["TankLevelCondition.evaluate#partial_step_lands_within_one_second_of_flow_past_threshold",
                       "WNTRSimulator._get_all_tank_controls#link_that_can_drain_the_tank_is_closed_at_min_head_before_and_after_each_solve"])]
+
+
+# ---------------------------------------------------------------------------- bounded: tanks with a volume curve (np.interp branch)
+
+def _vol_curve_tanks(tier, seed):
+    """The np.interp branches of update_tank_heads / TankLevelCondition.evaluate / get_volume, by simulation: a tank with a
+    VOLUME curve is filled or drained at a constant rate; a simple level control closes the connecting pipe at a threshold
+    crossed in the middle of a hydraulic step."""
+    import warnings
+    import logging
+    import numpy as np
+    import wntr
+    from wntr.network.controls import Control, ControlAction
+    warnings.simplefilter("ignore")
+    logging.disable(logging.CRITICAL)
+    evals, distinct, failures, samples = 0, set(), [], []
+    curves = {"quadratic": lambda l: 4.0 * l ** 2, "linear": lambda l: 60.0 * l, "cubic_plus": lambda l: 10.0 * l + 0.5 * l ** 3}
+    for cname, vf in curves.items():
+        levels = np.arange(0.0, 20.5, 0.5)
+        vols = np.array([vf(l) for l in levels])
+        for direction in ("fill", "drain"):
+            for t_cross in ((5000.5, 4321.0) if tier == "quick" else (5000.5, 4321.0, 3601.5, 7000.25, 6999.9)):
+                Q = 0.05
+                L0 = 2.0 if direction == "fill" else 12.0
+                v0 = float(np.interp(L0, levels, vols))
+                v2l = lambda v: float(np.interp(v, vols, levels))
+                sgn = 1.0 if direction == "fill" else -1.0
+                thr = v2l(v0 + sgn * Q * t_cross)
+                one_sec = abs(v2l(v0 + sgn * Q * (t_cross + 1.0)) - thr)
+                wn = wntr.network.WaterNetworkModel()
+                wn.add_tank("T", elevation=5.0, init_level=L0, min_level=0.0, max_level=20.0, diameter=10.0)
+                wn.add_curve("vc", "VOLUME", list(zip(levels.tolist(), vols.tolist())))
+                tank = wn.get_node("T")
+                tank.vol_curve_name = "vc"
+                wn.add_junction("J", base_demand=-sgn * Q, elevation=0.0)
+                wn.add_junction("K", base_demand=0.0, elevation=0.0)
+                wn.add_pipe("P1", "J", "T", length=100, diameter=0.5, roughness=100)
+                wn.add_pipe("P2", "T", "K", length=100, diameter=0.5, roughness=100)
+                wn.add_pipe("P3", "K", "J", length=100, diameter=0.5, roughness=100)
+                wn.options.time.duration = 3 * 3600
+                wn.options.time.hydraulic_timestep = 3600
+                wn.options.time.report_timestep = "ALL"
+                act = ControlAction(wn.get_link("P2"), "status", wntr.network.LinkStatus.Closed)
+                wn.add_control("c", Control._conditional_control(tank, "level", ">" if direction == "fill" else "<", thr, act))
+                try:
+                    res = wntr.sim.WNTRSimulator(wn).run_sim()
+                except Exception as e:
+                    failures.append(dict(curve=cname, direction=direction, t_cross=t_cross, raised=repr(e)[:160]))
+                    continue
+                evals += 1
+                distinct.add((cname, direction, t_cross))
+                level = res.node["head"]["T"] - tank.elevation
+                status = res.link["status"]["P2"]
+                dem = res.node["demand"]["T"]
+                holds = [t for t in level.index if (level[t] >= thr if direction == "fill" else level[t] <= thr)]
+                ok_ctrl = all(status[t] == 0 for t in holds)
+                first = holds[0] if holds else None
+                over = abs(level[first] - thr) if first is not None else None
+                ok_partial = first is not None and 3600 < first < 7200 and over <= 3.0 * one_sec + 1e-6
+                # volume integration through the curve between consecutive solved steps
+                ts = list(level.index)
+                worst = 0.0
+                for a, b in zip(ts[:-1], ts[1:]):
+                    dv = float(np.interp(level[b], levels, vols) - np.interp(level[a], levels, vols))
+                    worst = max(worst, abs(dv - dem[a] * (b - a)))
+                ok_vol = worst <= 1e-6 * max(1.0, abs(Q) * 3600)
+                if not (ok_ctrl and ok_partial and ok_vol):
+                    failures.append(dict(curve=cname, direction=direction, t_cross=t_cross, link_closed_whenever_condition_holds=ok_ctrl,
+                                         first_time_condition_holds=first, overshoot_m=over, one_second_of_flow_m=one_sec,
+                                         worst_volume_integration_error_m3=worst))
+                if len(samples) < 2:
+                    samples.append(dict(curve=cname, direction=direction, t_cross=t_cross, first_time_condition_holds=first, overshoot_m=over, one_second_of_flow_m=one_sec))
+    return dict(evaluations=evals, distinct_nontrivial=len(distinct), failures=failures[:10], samples=samples, exhaustive=False,
+                scope="3 volume curves x {fill, drain} x threshold-crossing times inside a hydraulic step: link closed whenever the level condition holds on a reported "
+                      "state, threshold met by a partial step (overshoot <= 3 s of flow), volume change through the curve = net inflow x elapsed time; "
+                      "projected volumes stay inside the curve's range")
+
+
+BOUNDED = [Bounded("C06.volume_curve_tanks", P + ["C05"], _vol_curve_tanks, kind="simulation of volume-curve tanks, run-time contract")]
